@@ -509,6 +509,9 @@ def error_templates(rng, labels, macro):
          ("wrong_arity", "defined(cpu.a, cpu.x)"), ("wrong_arity", "ram(%s) == ram16()" % zp),
          ("string_operator", "\"abc\" < \"abd\""), ("string_operator", "\"a\" - \"a\" == 0"), ("string_operator", "(\"x\" * \"y\") == 0"),
          ("string_operator", "ram(\"abc\" >= \"abd\") >= 0")]
+    # an operator applied to a number and a string, both known: an error since /repo 2b7ca67
+    c += [("mixed_operands", "cpu.a + \"x\""), ("mixed_operands", "\"x\" == cpu.x"), ("mixed_operands", "ram(%s) < \"1\"" % zp),
+          ("mixed_operands", "(cpu.y * \"2\") >= 0"), ("mixed_operands", "\"abc\" + 1 == \"abc1\"")]
     if macro:
         c += [("interpolation", "\"{%s}\" == \"x\"" % macro), ("interpolation", "\"a{%s}\"" % macro),
               ("interpolation", "\"v={%s}\" != \"\"" % macro)]
@@ -582,7 +585,7 @@ def templates(rng, st, consts_in_scope, labels, prev_text):
     c.append(("1", 1))
     c.append(("0", 0))
     c.append(("\"abc\" == \"abc\"", 1))
-    c.append(("cpu.a == \"x\"", 0))             # number vs string: no value
+    c.append(("cpu.a == \"x\"", 0))             # number vs string: an evaluation error (cannot be evaluated)
     return c
 
 
